@@ -21,12 +21,14 @@
      wf_schema, no_inline_cycle, defaults_total, fuel_bound   as for C04 (Schema/Wf.v, Schema/Total.v)
 
    ALL of the statements of the property are proved for every schema, table, input and fuel:
-     C14_sets_exactly, C14_other_ns_untouched, C14_lexical, C14_link_agrees, C14_order_irrelevant,
+     C14_sets_exactly, C14_other_ns_untouched, C14_lexical, C14_link_agrees, C14_apply_namespaces,
+     C14_order_irrelevant,
      C14_validate_refs_iff, C14_inline_step_*, C14_inline_equiv_{unser,validate,serialize},
      C14_inline_refs_equiv(_back), C14_recursive_terminates; refuted without its hypothesis:
      C14_recursive_refuted (known finding D11).
    Not covered: two scopes sharing one Go object by pointer (outside the model: scope nests are
-   trees); C14_order_irrelevant assumes both orders return (it does not derive one from the other). *)
+   trees).  The boolean side conditions (luniq, ns_names_ok, refs_to_objects) are evaluated on every
+   generated case by Interp/RunLink.v (a case violating one is reported as a disagreement). *)
 From Coq Require Import List ZArith Bool String Permutation.
 From Verif Require Import Base.Prelude Base.Str Base.Float Base.GoVal Schema.Regex Schema.Units
   Schema.Syntax Schema.Ops Schema.Link Schema.Compat Schema.Wf Schema.Total
@@ -74,12 +76,31 @@ Theorem C14_link_agrees : forall f s e apps lt0 lt, link_build f [] s [] = Ok lt
 Proof. exact link_agrees_b. Qed.
 Print Assumptions C14_link_agrees.
 
-(* Applying the external namespaces in any order gives the same link table. *)
-Theorem C14_order_irrelevant : forall f s apps apps' lt a b, Permutation apps apps' ->
-  ns_names_ok apps = true -> luniq s = true ->
-  apply_all f s apps lt = Ok a -> apply_all f s apps' lt = Ok b ->
-  forall p, lt_get p a = lt_get p b.
-Proof. exact order_irrelevant_b. Qed.
+(* Any list of applications (possibly only some of the namespaces): the occurrences of an applied
+   namespace are linked into its table, every other occurrence keeps the link it had. *)
+Theorem C14_apply_namespaces : forall f s apps lt lt', apply_all f s apps lt = Ok lt' -> luniq s = true ->
+  ns_names_ok apps = true ->
+  forall p,
+    (forall srcp id ns tab, In (p, (srcp, (id, ns))) (occs None "" [] s) -> In (ns, tab) apps ->
+        exists o, alookup id tab = Some o /\ lt_get p lt' = Some (mkLE (LExt ns) tab o)) /\
+    ((forall srcp id ns, In (p, (srcp, (id, ns))) (occs None "" [] s) -> ~ In ns (map fst apps)) ->
+        lt_get p lt' = lt_get p lt).
+Proof. exact apply_all_spec_b. Qed.
+Print Assumptions C14_apply_namespaces.
+
+(* the fuelled enumeration used by ValidateReferences and printed by the harness lists structural
+   occurrences only *)
+Theorem C14_refs_of_are_occs : forall f here s p id ns, In (p, (id, ns)) (refs_of f here s) ->
+  exists srcp, In (p, (srcp, (id, ns))) (occs None "" here s).
+Proof. exact refs_of_are_occs. Qed.
+Print Assumptions C14_refs_of_are_occs.
+
+(* Applying the external namespaces in any order gives the same link table: if one order returns,
+   every permutation returns, and the two tables agree at every path. *)
+Theorem C14_order_irrelevant : forall f s apps apps' lt a, Permutation apps apps' ->
+  ns_names_ok apps = true -> luniq s = true -> apply_all f s apps lt = Ok a ->
+  exists b, apply_all f s apps' lt = Ok b /\ forall p, lt_get p a = lt_get p b.
+Proof. exact order_irrelevant_total. Qed.
 Print Assumptions C14_order_irrelevant.
 
 (* ================= (2) ValidateReferences ================= *)
@@ -148,7 +169,7 @@ Print Assumptions C14_inl_env_refl.
 
 Theorem C14_inline_refs_inlines : forall n e stop s, refs_to_objects e s = true ->
   inlines_to e s (inline_refs n (e_self e) stop s).
-Proof. exact (fun n e stop s H => inline_refs_inl n e stop s (refs_to_objects_inv e s H)). Qed.
+Proof. exact inline_refs_inlines. Qed.
 Print Assumptions C14_inline_refs_inlines.
 
 Theorem C14_inline_refs_equiv : forall words pu e s n stop, refs_to_objects e s = true ->
